@@ -140,6 +140,46 @@ Proof.
 Qed.
 Print Assumptions C27_candidates.
 
+(** Deletion by identifier prefix, after any history: exactly the rows whose
+    identifier starts with the given hexadecimal digits disappear, every other row is
+    untouched, and the number of rows that vanish is the number of matching rows
+    (what the runner observes by counting the rows before and after the call). *)
+Theorem C27_delete_rule : forall bops pops p id,
+  let db := bdb (brun bops) in
+  let sdb := segs (pst (prun pops)) in
+  kfind be_id id (bdb (brun (bops ++ [BDelete p]))) =
+    (if prefix_b p id then None else kfind be_id id db)
+  /\ snd (bstep (fst (fst (brun bops))) db (BDelete p)) =
+     BRDeleted (N.of_nat (length (filter (fun e => prefix_b p (be_id e)) db)))
+  /\ (length (bdb (brun (bops ++ [BDelete p])))
+      + length (filter (fun e => prefix_b p (be_id e)) db) = length db)%nat
+  /\ kfind pe_id id (segs (pst (prun (pops ++ [PDelete p])))) =
+    (if prefix_b p id then None else kfind pe_id id sdb)
+  /\ snd (pstep (fst (fst (prun pops))) (pst (prun pops)) (PDelete p)) =
+     PRDeleted (N.of_nat (length (filter (fun e => prefix_b p (pe_id e)) sdb)))
+  /\ (length (segs (pst (prun (pops ++ [PDelete p]))))
+      + length (filter (fun e => prefix_b p (pe_id e)) sdb) = length sdb)%nat.
+Proof.
+  intros bops pops p id db sdb.
+  assert (Cnt : forall {X} (f : X -> bool) (l : list X),
+           (length (filter (fun x => negb (f x)) l) + length (filter f l) = length l)%nat).
+  { intros X f l. induction l as [|x t IH]; cbn; [reflexivity|]. destruct (f x); cbn; lia. }
+  split; [|split; [|split; [|split; [|split]]]].
+  - rewrite brun_snoc, bexec_db. cbn [bstep fst]. unfold delete_beacon.
+    rewrite kfind_filter by apply brun_wf. fold db.
+    destruct (kfind be_id id db) as [e|] eqn:F; [|now destruct (prefix_b p id)].
+    apply kfind_some in F as [_ <-]. now destruct (prefix_b p (be_id e)).
+  - reflexivity.
+  - rewrite brun_snoc, bexec_db. cbn [bstep fst]. unfold delete_beacon. apply Cnt.
+  - rewrite prun_snoc, pexec_st. cbn [pstep fst segs]. unfold delete_segment.
+    rewrite kfind_filter by apply prun_wf. fold sdb.
+    destruct (kfind pe_id id sdb) as [e|] eqn:F; [|now destruct (prefix_b p id)].
+    apply kfind_some in F as [_ <-]. now destruct (prefix_b p (pe_id e)).
+  - reflexivity.
+  - rewrite prun_snoc, pexec_st. cbn [pstep fst segs]. unfold delete_segment. apply Cnt.
+Qed.
+Print Assumptions C27_delete_rule.
+
 (** Clean-up removes exactly the rows whose expiry lies before [now] and reports how
     many they were. *)
 Theorem C27_cleanup_exact : forall bops pops now,
@@ -213,7 +253,9 @@ Example C27_example :
   let all := {| g_ids := []; g_types := []; g_groups := []; g_intfs := []; g_starts := []; g_ends := [] |} in
   let q := {| g_ids := []; g_types := [2]; g_groups := [7]; g_intfs := [(b, 9)]; g_starts := [(1, 0)]; g_ends := [] |} in
   presults [PInsert s1 1 []; PInsert s1 2 [7]; PGet all; PInsert s2 2 [7]; PGet q;
-            PDeleteExpired 301; PGet all; PInsertNQ a b 50; PInsertNQ a b 50; PGetNQ a b]
+            PDelete [1; 3]; PDeleteExpired 301; PGet all; PInsertNQ a b 50; PInsertNQ a b 50; PGetNQ a b;
+            PInsert s1 3 [9]; PDelete [1]; PGet all]
   = [PRStats 1 0; PRStats 0 0; PRGet [([1; 2], 1, 1, [0], 0)]; PRStats 0 1;
-     PRGet [([1; 2], 2, 2, [7], 3)]; PRCount 1; PRGet []; PRBool true; PRBool false; PRNQ (Some 50)].
+     PRGet [([1; 2], 2, 2, [7], 3)]; PRDeleted 0; PRCount 1; PRGet []; PRBool true; PRBool false;
+     PRNQ (Some 50); PRStats 1 0; PRDeleted 1; PRGet []].
 Proof. vm_compute. reflexivity. Qed.
